@@ -105,6 +105,103 @@ def complex_flags(ctx, m):
                     "factors of dtype %s and %s give an operator of dtype %s, expected %s" % (a, b, got, want))
 
 
+def _tc(n, cls):
+    """(base text, transposed?, conjugated?) of a representation expression: attribute / method chains over one base
+    with .T (the loader's spelling of .transpose()) and .conjugate() / .conj() toggling the two flags."""
+    t = c = False
+    while True:
+        if isinstance(n, ast.Call) and isinstance(n.func, ast.Name) and n.func.id == cls and len(n.args) == 1 and not n.keywords:
+            n = n.args[0]
+        elif isinstance(n, ast.Attribute) and n.attr == "T":
+            t, n = not t, n.value
+        elif isinstance(n, ast.Attribute) and n.attr == "H":
+            t, c, n = not t, not c, n.value
+        elif isinstance(n, ast.Call) and isinstance(n.func, ast.Attribute) and n.func.attr in ("conjugate", "conj") and not n.args:
+            c, n = not c, n.func.value
+        elif isinstance(n, ast.Call) and unparse(n.func).split(".")[-1] in ("conj", "conjugate") and len(n.args) == 1:
+            c, n = not c, n.args[0]
+        else:
+            return unparse(n).replace(" ", ""), t, c
+
+
+def transpose_adjoint(ctx):
+    """_transpose / _adjoint of the discrete operators, and the transposed boundary operator."""
+    from . import roles
+
+    r = ctx.rule("TRANSPOSE-ADJOINT", "discrete operators: _transpose builds the operator of the transposed representation, _adjoint of the conjugate transposed one (diagonal: conjugate; rank one: factors exchanged / exchanged and conjugated); "
+                 "the transposed boundary operator exchanges domain and dual space and toggles the transposition flag, which _assemble honours", 9)
+    m = ctx.repo.mod(DO)
+    reps = {"DenseDiscreteBoundaryOperator": ("self.to_dense()", "self._impl", "self.A"), "SparseDiscreteBoundaryOperator": ("self.to_sparse()", "self._impl", "self.A"),
+            "DiagonalOperator": ("self.get_diagonal()", "self._values")}
+    for cname, bases in reps.items():
+        for meth, want_c in (("_transpose", False), ("_adjoint", True)):
+            fn = m.fn("%s.%s" % (cname, meth))
+            rets = [s for s in ast.walk(fn) if isinstance(s, ast.Return) and s.value is not None]
+            ok, why = False, "no single return"
+            if len(rets) == 1:
+                v = roles.inline(rets[0].value, roles.Defs(fn))
+                if cname == "DiagonalOperator" and unparse(v) == "self" and not want_c:
+                    ok, why = True, ""
+                else:
+                    base, t, c = _tc(v, cname)
+                    wrapped = isinstance(v, ast.Call) and isinstance(v.func, ast.Name) and v.func.id == cname
+                    want_t = None if cname == "DiagonalOperator" else True
+                    ok = wrapped and base in bases and (want_t is None or t == want_t) and c == want_c
+                    why = "%s.%s returns `%s` = %s%s of `%s`%s; expected %s" % (cname, meth, unparse(v)[:70], "transposed " if t else "", "conjugate" if c else "unconjugated", base,
+                                                                                 "" if wrapped else " (not wrapped in %s)" % cname, "the conjugate transposed representation" if want_c else "the transposed representation")
+            r.check(ok, "%s.%s" % (cname, meth), DO, "%s.%s" % (cname, meth), fn.lineno, "%s.%s" % (cname, meth), why)
+    # rank one: u v^T -> v u^T, conj(v) conj(u)^T
+    init = m.fn("DiscreteRankOneOperator.__init__")
+    pa = arg_names(init)[1:3]  # (column, row)
+    slots = {}
+    for s in ast.walk(init):
+        if isinstance(s, ast.Assign) and isinstance(s.targets[0], ast.Attribute) and unparse(s.targets[0].value) == "self":
+            b, _, _ = _tc(s.value.func.value if isinstance(s.value, ast.Call) and isinstance(s.value.func, ast.Attribute) and s.value.func.attr in ("ravel", "flatten") else s.value, "‹none›")
+            if b in pa:
+                slots["self." + s.targets[0].attr] = b
+    for meth, want_c in (("_transpose", False), ("_adjoint", True)):
+        fn = m.fn("DiscreteRankOneOperator." + meth)
+        rets = [s for s in ast.walk(fn) if isinstance(s, ast.Return) and s.value is not None]
+        ok, why = False, "no single return of DiscreteRankOneOperator(column, row)"
+        if len(rets) == 1 and isinstance(rets[0].value, ast.Call) and unparse(rets[0].value.func) == "DiscreteRankOneOperator" and len(rets[0].value.args) == 2 and not rets[0].value.keywords:
+            got = [_tc(a, "‹none›") for a in rets[0].value.args]
+            ok = [slots.get(g[0]) for g in got] == [pa[1], pa[0]] and all(g[2] == want_c for g in got)
+            why = "DiscreteRankOneOperator.%s builds (column, row) = (%s%s, %s%s); expected (%srow, %scolumn) of the operator" % (
+                meth, "conj " if got[0][2] else "", slots.get(got[0][0], got[0][0]), "conj " if got[1][2] else "", slots.get(got[1][0], got[1][0]), "conj " if want_c else "", "conj " if want_c else "")
+        r.check(ok, "DiscreteRankOneOperator." + meth, DO, "DiscreteRankOneOperator." + meth, fn.lineno, "rank-one " + meth, why)
+    # the transposed boundary operator
+    BOP = "bempp_cl/api/assembly/boundary_operator.py"
+    bm = ctx.repo.mod(BOP)
+    ft = bm.fn("BoundaryOperatorWithAssembler._transpose")
+    init = bm.fn("BoundaryOperatorWithAssembler.__init__")
+    ip = arg_names(init)[1:]
+    rng = arg_names(ft)[1]
+    rets = [s for s in ast.walk(ft) if isinstance(s, ast.Return) and s.value is not None]
+    ok, why = False, "no single return of BoundaryOperatorWithAssembler(...)"
+    if len(rets) == 1 and isinstance(rets[0].value, ast.Call) and unparse(rets[0].value.func) == "BoundaryOperatorWithAssembler":
+        c = rets[0].value
+        got = dict(zip(ip, [unparse(a).replace(" ", "") for a in c.args]))
+        got.update({k.arg: unparse(k.value).replace(" ", "") for k in c.keywords})
+        flag = got.get(ip[5]) if len(ip) > 5 else None
+        spaces_ok = got.get(ip[0]) in ("self._dual_to_range", "self.dual_to_range") and got.get(ip[2]) in ("self._domain", "self.domain") and got.get(ip[1]) == rng
+        same = got.get(ip[3]) in ("self._assembler", "self.assembler") and got.get(ip[4]) in ("self._operator_descriptor", "self.descriptor")
+        flag_ok = flag in ("notself.transpose_", "(notself.transpose_)")
+        ok = spaces_ok and same and flag_ok
+        why = ("the transposed operator is built with %s: spaces exchanged %s, same assembler / descriptor %s, transposition flag `%s` (expected `not self.transpose_`: with a constant True the transposed operator of a transposed "
+               "operator announces the original spaces but assembles the transposed matrix)" % (got, spaces_ok, same, flag))
+    r.check(ok, "BoundaryOperatorWithAssembler._transpose", BOP, "BoundaryOperatorWithAssembler._transpose", ft.lineno, "transposed boundary operator", why)
+    fa = bm.fn("BoundaryOperatorWithAssembler._assemble")
+    base = "self.assembler.assemble(self.descriptor)"
+    res = {}
+    for flag in (True, False):
+        kind, node = dispatch.select(fa, {"self.transpose_": flag})
+        res[flag] = unparse(node).replace(" ", "") if kind == "return" and node is not None else None
+    alts = {base, "self._assembler.assemble(self._operator_descriptor)", "self.assembler.assemble(self._operator_descriptor)", "self._assembler.assemble(self.descriptor)"}
+    oka = res[False] in alts and res[True] in {a + ".T" for a in alts}
+    r.check(oka, "BoundaryOperatorWithAssembler._assemble", BOP, "BoundaryOperatorWithAssembler._assemble", fa.lineno, "assembly of a transposed operator",
+            "with the flag set _assemble returns `%s`, without it `%s`; expected the assembled operator transposed / as it is" % (res[True], res[False]))
+
+
 def blocked_to_dense(ctx):
     """BlockedDiscreteOperator.to_dense: vstack over block rows i of hstack over block columns j of block (i, j)."""
     from . import roles
